@@ -381,11 +381,13 @@ func runCheck(id, tier string, seed int, repo string, overlay map[string][]byte,
 	for n := range baseline {
 		if !seen[n] {
 			if overlay != nil {
-				fn := n
-				if k := strings.Index(n, "#"); k >= 0 {
-					fn = n[:k]
+				isSkipped := strings.HasPrefix(n, "lemma")
+				for k := 0; k < len(n) && !isSkipped; k++ {
+					if n[k] == '#' && (skipped[n[:k]] || skipped[fullFuncName(n[:k])]) {
+						isSkipped = true
+					}
 				}
-				if skipped[fn] || skipped[fullFuncName(fn)] || strings.HasPrefix(n, "lemma") {
+				if isSkipped {
 					continue
 				}
 			}
